@@ -120,6 +120,20 @@ def reject_candidates(t):
     return None
 
 
+def reject_instances(t):
+    """Out-of-range values that already are instances of a wider, related field type (copied from another record's
+    field): the range of the receiving type still applies."""
+    if t in U16:
+        return st.sampled_from([M("ftinst", ("uint32", 65536)), M("ftinst", ("uint32", 2**32 - 1)), M("ftinst", ("varint", 70000)),
+                                M("ftinst", ("filesize", 65536)), M("ftinst", ("varint", -1)), M("ftinst", ("unix_file_mode", 0o200000))])
+    if t == "uint32":
+        return st.sampled_from([M("ftinst", ("varint", 2**32)), M("ftinst", ("filesize", 2**33)), M("ftinst", ("varint", -1))])
+    if t == "boolean":
+        return st.sampled_from([M("ftinst", ("varint", 2)), M("ftinst", ("uint16", 2)), M("ftinst", ("uint32", 255)),
+                                M("ftinst", ("varint", -1))])
+    return None
+
+
 def either_candidates(t):
     base = [M("object", None), 5.5, "5", M("list", [1, 2]), -1, "", b"\xff\xfe", M("dict", {"a": 1}), 2**70]
     return st.sampled_from(base)
@@ -176,6 +190,10 @@ def candidate(t):
         rj = reject_candidates(inner)
         if rj is not None:
             alts.append(st.tuples(good, rj).map(lambda p: ("reject", p[0] + [p[1]])))
+        if reject_instances(inner) is not None:
+            alts.append(st.tuples(good, reject_instances(inner)).map(lambda p: ("reject", p[0] + [p[1]])))
+            # ... also as an existing typed list of the wider type
+            alts.append(reject_instances(inner).map(lambda m: ("reject", M("typedlist", (m.p[0], [m.p[1]])))))
         if inner != "record":
             alts.append(st.tuples(good, either_candidates(inner)).map(lambda p: ("either", p[0] + [p[1]])))
             alts.append(st.sampled_from([5, "abc", M("object", None)]).map(lambda v: ("either", v)))
@@ -188,6 +206,8 @@ def candidate(t):
     rj = reject_candidates(t)
     if rj is not None:
         alts += [rj.map(lambda v: ("reject", v))] * 2
+    if reject_instances(t) is not None:
+        alts.append(reject_instances(t).map(lambda v: ("reject", v)))
     alts.append(either_candidates(t).map(lambda v: ("either", v)))
     return st.one_of(*alts)
 
